@@ -6,7 +6,8 @@ import hashlib, os
 import vlib
 
 THEOREMS = ["C01_write_terminates", "C01_chunks_are_the_content", "C01_segmentation_irrelevant", "C01_written_file_verifies_and_decodes", "C01_write_then_read_roundtrip",
-            "C01_tool_scan_no_crash", "C01_tool_scan_preserves_content", "C01_tool_scan_end_before_split", "C01_tool_read_error_reported"]
+            "C01_tool_scan_no_crash", "C01_tool_scan_preserves_content", "C01_tool_scan_end_before_split", "C01_tool_read_error_reported",
+            "C01_refuted_index_over_int_max", "C01_refuted_index_over_int_max_witness"]
 ASSUMPTIONS = [
     "zstd is an oracle: round trip zdecomp(zcomp x) = x is assumed by the theorems and tested by the run",
     "models: Chunk/Writer.v (chunker), Chunk/ZckTool.v (tool scanner), Format/HeaderWrite.v (header creation), Format/ParseImpl.v (reader header path); "
